@@ -709,7 +709,36 @@ impl<'a> std::io::Read for DripN<'a> {
         Ok(k)
     }
 }
+/// a reader that is interrupted on every other call (ErrorKind::Interrupted: "retry") and hands out 3 bytes otherwise
+pub struct Stutter<'a> {
+    pub b: &'a [u8],
+    pub pos: usize,
+    pub calls: usize,
+}
+impl<'a> std::io::Read for Stutter<'a> {
+    fn read(&mut self, out: &mut [u8]) -> std::io::Result<usize> {
+        self.calls += 1;
+        if self.calls % 2 == 1 {
+            return Err(std::io::Error::new(std::io::ErrorKind::Interrupted, "interrupted"));
+        }
+        let k = out.len().min(3).min(self.b.len() - self.pos);
+        out[..k].copy_from_slice(&self.b[self.pos..self.pos + k]);
+        self.pos += k;
+        Ok(k)
+    }
+}
 pub fn readers_agree<T: Decodable + std::fmt::Debug>(b: &[u8], r: &Result<(T, usize), monero::consensus::encode::Error>) -> bool {
+    {
+        let mut d = Stutter { b, pos: 0, calls: 0 };
+        let ok = match (T::consensus_decode(&mut d), r) {
+            (Ok(y), Ok((x, k))) => d.pos == *k && format!("{:?}", y) == format!("{:?}", x),
+            (Err(_), Err(_)) => true,
+            _ => false,
+        };
+        if !ok {
+            return false;
+        }
+    }
     let mut d = Drip { b, pos: 0 };
     let one = match (T::consensus_decode(&mut d), r) {
         (Ok(y), Ok((x, n))) => d.pos == *n && format!("{:?}", y) == format!("{:?}", x),
@@ -748,6 +777,18 @@ pub fn dp<T: Decodable + std::fmt::Debug>(b: &[u8]) -> Result<(T, usize), monero
 /// deserialize (strict) with the reader routes run beside it
 pub fn ds<T: Decodable + std::fmt::Debug>(b: &[u8]) -> Result<T, monero::consensus::encode::Error> {
     let r = deserialize::<T>(b);
+    {
+        let mut d = Stutter { b, pos: 0, calls: 0 };
+        let ok = match (T::consensus_decode(&mut d), &r) {
+            (Ok(y), Ok(x)) => d.pos == b.len() && format!("{:?}", y) == format!("{:?}", x),
+            (Err(_), Err(_)) => true,
+            (Ok(_), Err(_)) => d.pos != b.len(),
+            (Err(_), Ok(_)) => false,
+        };
+        if !ok {
+            READER_MISMATCH.with(|c| c.set(true));
+        }
+    }
     for n in [1usize, 7, 4096] {
         let mut d = DripN { b, pos: 0, n };
         let ok = match (T::consensus_decode(&mut d), &r) {
